@@ -15,7 +15,7 @@ CONSTANTS
   MinHigh = 0
   SecrecyOn = FALSE
   TraceFile = "trace.ndjson"
-  Checked = {"st", "att", "S", "pend", "signed", "sig"}
+  Checked = {"st", "att", "S", "pend", "signed", "sig", "asg"}
   Owned = {"Request", "Submit", "EndBlock", "Nonces", "Native"}
 SPECIFICATION TraceSpec
 INVARIANTS TInv
